@@ -119,7 +119,8 @@ class CumSumSoftPlusTransform(Transform):
     sign = +1
 
     def _call(self, x):
-        return softplus(x.cumsum(-1))
+        # softplus(x) returns x above its threshold; the default of 20 loses exp(-20)
+        return softplus(x.cumsum(-1), threshold=40.0)
 
     def _inverse(self, y):
         y_log = torch.expm1(y).log()
